@@ -178,6 +178,17 @@ def r3(repo, res):
                 vals.append(v)
             k, sl = Evaluator({"self": me, "i": slice(lo - 2, lo + 3)}).run(fn_body(gi))
             okg = vals == ["N", want[0], want[7], want[-1], "N"] and sl == "NN" + want[:3]
+            # every slice around the two ends of the lookup range (and across it) reads base by base what single positions read
+            edge = [lo - 3, lo - 1, lo, lo + 1, lo + 5, hi - 2, hi - 1, hi, hi + 1, hi + 3]
+            for a_ in edge:
+                for b_ in edge:
+                    if a_ > b_:
+                        continue
+                    k, got_ = Evaluator({"self": me, "i": slice(a_, b_)}).run(fn_body(gi))
+                    spec_ = "".join(want[c_ - lo] if lo <= c_ < hi else "N" for c_ in range(a_, b_))
+                    if got_ != spec_ and okg:
+                        okg = False
+                        sl = f"gene[{a_ - lo:+d}:{b_ - lo:+d}] relative to the range start = {got_!r}, expected {spec_!r}"
         except (Unfoldable, Raised) as e:
             res.err("C08.R3", f"Gene.__getitem__ outside folding language: {e}")
             return
@@ -571,9 +582,9 @@ def r5(repo, res):
            key="variant-handover")
     eqs = me._indel_sites_eqs
     want_keys = {(504, "insGG"): (503, "insGG"), (506, "delCA"): (506, "delCA"), (510, "delGG"): (510, "delGG")}
-    ok = all(eqs.get(k) == v for k, v in want_keys.items())
+    ok = dict(eqs) == want_keys   # nothing else: a deletion-insertion has no equivalent that is a plain insertion or deletion
     res.ob("C08.R5", f, loop, ok,
-           expected="equivalent keys use the read parser's convention: insertion keyed at the base after it, deletion at its first deleted base",
+           expected="equivalent keys use the read parser's convention: insertion keyed at the base after it, deletion at its first deleted base; a deletion-insertion registers none",
            found=str(dict(eqs)), key="equivalent-keys")
     # the read parser counts a read towards the catalogued indel its own indel is equivalent to (the parser folded whole)
     from checks._reads import START, fold_parse_read, sample_read
@@ -630,6 +641,14 @@ MUTANTS = [
          old='                        op = f"{rev_comp(l)}>{rev_comp(r)}"\n                        pos = pos + len(l) - 1', new='                        op = f"{rev_comp(l)}>{r[::-1]}"\n                        pos = pos + len(l) - 1'),
     dict(name="R2 reverse without complement (insertion)", module="gene", expect="C08.R1",
          old='                        op = f"ins{rev_comp(op[3:])}"\n                        pos += 1', new='                        op = f"ins{op[3:][::-1]}"\n                        pos += 1'),
+    dict(name="R3 slice left of the range padded one base short", module="gene", expect="C08.R3",
+         old="            loff = max(0, s - i)", new="            loff = max(0, s - i - 1)"),
+    dict(name="R3 slice entirely outside the range only when both ends are", module="gene", expect="C08.R3",
+         old="            if j <= s or i >= e:", new="            if j <= s and i >= e:"),
+    dict(name="R3 slice right overhang lost", module="gene", expect="C08.R3",
+         old="            roff = max(0, j - e)", new="            roff = 0"),
+    dict(name="R5 deletion-insertion equivalents registered as deletions", module="sam", expect="C08.R5",
+         old="                    elif len(ev.ref) > len(ev.alt) and ev.ref.startswith(ev.alt):", new="                    elif len(ev.ref) > len(ev.alt):"),
     dict(name="R2 lookup sequence not complemented", module="gene", expect="C08.R3",
          old="                rev_comp(self.seq[self.chr_to_ref[i]])\n                if self.strand < 0", new="                self.seq[self.chr_to_ref[i]]\n                if self.strand < 0"),
     dict(name="R3 lookup sliced from RefSeq on the forward strand (seeded C08_3 shape)", module="gene", expect="C08.R3",
